@@ -51,6 +51,10 @@ impl Rec {
             extra_evals: 0,
         }
     }
+    /// a recorder for libFuzzer targets / byte replays (nothing is accounted)
+    pub fn for_fuzz() -> Rec {
+        Rec::new(false)
+    }
     /// mark the case as non-trivial by the property's stated rule
     pub fn nontrivial(&mut self) {
         self.nontrivial = true;
